@@ -1,0 +1,136 @@
+//go:build verif
+
+package main
+
+// Contracts for main (C12: the prefixes are final before the plugin collection is sorted),
+// read by /verif's gvc (comment-only file).
+
+// the plugin constructors return a plugin
+//@ extern func equal.NewPlugin() (r derive.Plugin)
+//@ assigns nothing
+//@ ensures r != nil
+//@ extern func compare.NewPlugin() (r derive.Plugin)
+//@ assigns nothing
+//@ ensures r != nil
+//@ extern func fmap.NewPlugin() (r derive.Plugin)
+//@ assigns nothing
+//@ ensures r != nil
+//@ extern func join.NewPlugin() (r derive.Plugin)
+//@ assigns nothing
+//@ ensures r != nil
+//@ extern func keys.NewPlugin() (r derive.Plugin)
+//@ assigns nothing
+//@ ensures r != nil
+//@ extern func sort.NewPlugin() (r derive.Plugin)
+//@ assigns nothing
+//@ ensures r != nil
+//@ extern func deepcopy.NewPlugin() (r derive.Plugin)
+//@ assigns nothing
+//@ ensures r != nil
+//@ extern func set.NewPlugin() (r derive.Plugin)
+//@ assigns nothing
+//@ ensures r != nil
+//@ extern func min.NewPlugin() (r derive.Plugin)
+//@ assigns nothing
+//@ ensures r != nil
+//@ extern func max.NewPlugin() (r derive.Plugin)
+//@ assigns nothing
+//@ ensures r != nil
+//@ extern func contains.NewPlugin() (r derive.Plugin)
+//@ assigns nothing
+//@ ensures r != nil
+//@ extern func intersect.NewPlugin() (r derive.Plugin)
+//@ assigns nothing
+//@ ensures r != nil
+//@ extern func union.NewPlugin() (r derive.Plugin)
+//@ assigns nothing
+//@ ensures r != nil
+//@ extern func filter.NewPlugin() (r derive.Plugin)
+//@ assigns nothing
+//@ ensures r != nil
+//@ extern func takewhile.NewPlugin() (r derive.Plugin)
+//@ assigns nothing
+//@ ensures r != nil
+//@ extern func unique.NewPlugin() (r derive.Plugin)
+//@ assigns nothing
+//@ ensures r != nil
+//@ extern func flip.NewPlugin() (r derive.Plugin)
+//@ assigns nothing
+//@ ensures r != nil
+//@ extern func toerror.NewPlugin() (r derive.Plugin)
+//@ assigns nothing
+//@ ensures r != nil
+//@ extern func curry.NewPlugin() (r derive.Plugin)
+//@ assigns nothing
+//@ ensures r != nil
+//@ extern func uncurry.NewPlugin() (r derive.Plugin)
+//@ assigns nothing
+//@ ensures r != nil
+//@ extern func all.NewPlugin() (r derive.Plugin)
+//@ assigns nothing
+//@ ensures r != nil
+//@ extern func any.NewPlugin() (r derive.Plugin)
+//@ assigns nothing
+//@ ensures r != nil
+//@ extern func tuple.NewPlugin() (r derive.Plugin)
+//@ assigns nothing
+//@ ensures r != nil
+//@ extern func gostring.NewPlugin() (r derive.Plugin)
+//@ assigns nothing
+//@ ensures r != nil
+//@ extern func compose.NewPlugin() (r derive.Plugin)
+//@ assigns nothing
+//@ ensures r != nil
+//@ extern func do.NewPlugin() (r derive.Plugin)
+//@ assigns nothing
+//@ ensures r != nil
+//@ extern func pipeline.NewPlugin() (r derive.Plugin)
+//@ assigns nothing
+//@ ensures r != nil
+//@ extern func dup.NewPlugin() (r derive.Plugin)
+//@ assigns nothing
+//@ ensures r != nil
+//@ extern func clone.NewPlugin() (r derive.Plugin)
+//@ assigns nothing
+//@ ensures r != nil
+//@ extern func hash.NewPlugin() (r derive.Plugin)
+//@ assigns nothing
+//@ ensures r != nil
+//@ extern func mem.NewPlugin() (r derive.Plugin)
+//@ assigns nothing
+//@ ensures r != nil
+//@ extern func traverse.NewPlugin() (r derive.Plugin)
+//@ assigns nothing
+//@ ensures r != nil
+//@ extern func apply.NewPlugin() (r derive.Plugin)
+//@ assigns nothing
+//@ ensures r != nil
+
+//@ extern func flag.Parse() ()
+//@ assigns nothing
+//@ extern func flag.Args() (r []string)
+//@ pure
+//@ extern func log.SetFlags(flag int) ()
+//@ assigns nothing
+// log.Fatal and log.Fatalf do not return
+//@ extern func log.Fatalf(format string, v []interface{}) ()
+//@ assigns nothing
+//@ ensures false
+//@ extern func log.Fatal(v []interface{}) ()
+//@ assigns nothing
+//@ ensures false
+//@ extern func strings.Split(s string, sep string) (r []string)
+//@ pure
+//@ extern func strings.Replace(s string, old string, new string, n int) (r string)
+//@ pure
+//@ extern func derive.ImportPaths(args []string) (r []string)
+//@ pure
+
+// The flag variables are initialised at package initialisation (flag.Bool / flag.String return non-nil).
+//@ func main() ()
+//@ assigns prefixesFrozen, fs, foff, handledBy, synced, any ast.CallExpr.Fun, any derive.printer.hasContent, any derive.printer.indent, any derive.printer.w, any derive.printer.imports, any derive.typesMap.generated, any derive.typesMap.funcToTyps, any derive.typesMap.typss
+//@ requires autoname != nil && dedup != nil && prefix != nil && pluginprefix != nil
+//@ requires [fresh-process] !prefixesFrozen
+//@ ensures [user-files-intact] (!old(*autoname) && !old(*dedup)) ==> forall q string :: !isDerivedFile(q) ==> ((q in fs) <==> (q in old(fs))) && fs[q] == old(fs)[q]
+//@ loop 1: invariant !prefixesFrozen && overridePrefixes != nil
+//@ loop 2: invariant !prefixesFrozen && overridePrefixes != nil && nonNilPlugins(plugins)
